@@ -1,7 +1,8 @@
 From Coq Require Extraction ExtrOcamlBasic.
-From GV Require Import Base.Grammar Base.Analyses LR.Automaton LR.Validator LR.Canon C03.Model.
+From GV Require Import Base.Grammar Base.Analyses LR.Automaton LR.Validator LR.Canon C03.Model C03.Spec C03.Yacc3.
 Extraction Language OCaml.
 Extraction "model.ml" mkGrammar mkDump of_dump run lhs rhs
   mkPrec cell_spec sr_spec red_cands acc_cand winner accept_reduce_b has_candidate
   table_mirror tb_cell wf_state_b prec_consistent_b precs_of
-  token_prec_spec token_prec_mirror decl_dups prod_prec_mirror build_ok_spec build_ok_mirror decide canon_lr1.
+  token_prec_spec token_prec_mirror decl_dups prod_prec_mirror build_ok_spec build_ok_mirror decide canon_lr1
+  cell_yacc three_way_b yacc_agrees_b cell_bison yres_same_b sr_cell_spec.
